@@ -52,6 +52,13 @@ MANUAL = [
       {'a': 'dlv', 'x': 's', 'k': 1},
       {'a': 'call', 'x': 's', 'c': {'op': 'hdr', 'sid': 1, 'h': 'resp_cl_bad', 'es': False, 'pr': []}},
       {'a': 'dlv', 'x': 'c', 'k': 1}]),
+    ('sent_block_fails_inbound_rules', ['C01'],
+     'outbound header validation is weaker than the library\'s own inbound validation: send_headers emits a field with an empty '
+     'name; the receiving h2 endpoint refuses the block with ProtocolError ("Received header with an empty name") and closes '
+     'the connection (a successful send that the peer does not accept); found by trace validation under another seed: '
+     'P_C01_DeliveredSendsAccepted on recorded traces pair/life/5000030 and pair/push/5000030', PAIR,
+     [{'a': 'call', 'x': 'c', 'c': {'op': 'hdr', 'sid': 1, 'h': 'req_emptyname', 'es': True, 'pr': []}},
+      {'a': 'dlv', 'x': 's', 'k': 1}]),
     ('sent_header_list_unchecked', ['C01'],
      'send_headers emits a header list larger than the MAX_HEADER_LIST_SIZE the peer announced; the receiving h2 endpoint refuses '
      'it with DenialOfServiceError (ENHANCE_YOUR_CALM) and closes the connection (a successful send that the peer does not '
